@@ -3,6 +3,7 @@
 # and a byte/length judge are applied to the implementation's output.
 import json, itertools
 from common import *
+import msgfull as MF
 from hdrcheck import *
 import gen_hdr as GH
 
@@ -117,6 +118,11 @@ def run(ctx):
     for k, o in enumerate(ti):
         if o == "PANIC":
             unexpl.append(({"name": "Content-Type", "value": ctexts[k]}, "ContentType::parse / display panicked"))
+    # whole messages through the public builder: every field byte-identical to the model's, read as exactly the fields set
+    mrecs = MF.run_cases(ctx, MF.cases(rng, 150 if ctx.tier == "quick" else 3000))
+    mdiffs, mbad = MF.judge_c02(ctx, mrecs, known, hits)
+    for r, det in mbad:
+        unexpl.append(({"name": "message", "value": r["line"]}, det))
     # one field per name, whatever the letter case of later set calls (header map operations)
     hn = ["Subject", "subject", "SUBJECT", "sUBJECT", "X-Priority", "x-priority", "X-priority", "Date", "date", "Message-ID", "Message-Id"]
     ol = []
@@ -141,12 +147,13 @@ def run(ctx):
                 unexpl.append(({"name": "Headers", "value": ol[k][:300]}, "two fields with the same name (case-insensitively) in one header section: %r" % fields))
     ctx.cov["correspondence"] = {"hdrs.ops": {"sequences": len(ol), "disagreements": len(odiff)}, "hdr.value": {"cases": len(recs), "disagreements": len(diffs), "exhaustive_alphabet": GH.ATOMS, "exhaustive_maxlen": maxlen, "name_lengths": "1..76 x %d alignment values" % len(align_vals)},
                                  "hdr.name": {"cases": len(nl), "disagreements": len(ndiff)}, "hdr.mailboxes": {"cases": len(ml), "disagreements": len(mdiff)}, "hdr.cdisp": {"cases": len(cl_), "disagreements": len(cdiff)},
+                                 "msg.full": {"messages": len(mrecs), "disagreements": len(mdiffs)},
                                  "hdr.ctype": {"cases": len(tl), "accepted_by_the_media_type_parser": len(tok), "disagreements": len(tdiff)}}
     ctx.cov["oracle"] = {"rfc5322_field_splitter_and_line_judge_on_impl": {"cases": len(ok_recs) + len(mok) + len(ci) + len(tok), "unexplained": len(unexpl), "known_class_hits": dict(hits)},
                          "header_name_iff_ftext": {"cases": len(nstrs), "failures": len(nbad)}}
     ctx.cov["exhaustive"] = True
     ctx.cov["rule"] = ("HeaderValue::new over all strings of up to %d atoms from %s under several names, boundary/alignment families (every code-point width at every fold offset, blank runs 0..99, words to 2000, 64 KiB values, all name lengths 1..76), "
-                       "mailbox-list headers, Content-Disposition file names, Content-Type built from text with non-ASCII quoted parameters (name, boundary, custom; compared with the model's encoder applied to the media type string), header-name constructor over a 12-symbol alphabet; model vs implementation, then the extracted RFC 5322 field splitter and a byte/line-length judge on the implementation's output; "
+                       "mailbox-list headers, Content-Disposition file names, whole messages built through the public API (subject, message id, in-reply-to, references, user agent, comments, a custom header type, display name, attachment file name, content id: fields byte-identical to the model's, in insertion order, part headers included), Content-Type built from text with non-ASCII quoted parameters (name, boundary, custom; compared with the model's encoder applied to the media type string), header-name constructor over a 12-symbol alphabet; model vs implementation, then the extracted RFC 5322 field splitter and a byte/line-length judge on the implementation's output; "
                        "non-trivial = value with a non-printable/non-ASCII character or longer than 60") % (maxlen, GH.ATOMS)
     ctx.sample({"name": recs[37]["name"], "value": recs[37]["value"], "impl": recs[37]["impl"][:200]})
     for cl, n in sorted(hits.items()):
@@ -158,6 +165,9 @@ def run(ctx):
         ctx.violation({"kind": "oracle", "entry": "HeaderName::new_from_ascii", "name_hex": hx(U(nbad[0])), "what": "accepted iff printable ASCII without ':' (RFC 5322 ftext) is violated", "failures": len(nbad)})
     if odiff and not ctx.violations:
         ctx.violation({"kind": "correspondence", "fn": "hdrs.ops", "line": ol[odiff[0]][:600], "impl": oi[odiff[0]][:300], "model": om[odiff[0]][:300]}, nofail=True)
+    if mdiffs and not ctx.violations:
+        r, det = mdiffs[0]
+        ctx.violation({"kind": "correspondence", "fn": "msg.full", "line": r["line"], "what": det, "disagreements": len(mdiffs)}, nofail=True)
     if tdiff and not ctx.violations:
         ctx.violation({"kind": "correspondence", "fn": "hdr.ctype", "line": tl[tdiff[0]], "impl": ti[tdiff[0]][:400], "model": "hdr.value(Content-Type, raw) = " + tm[tok.index(tdiff[0])][:400]}, nofail=True)
     if (diffs or ndiff or mdiff or cdiff) and not ctx.violations:
